@@ -21,7 +21,7 @@ def adversarial(rng, count, max_n):
     for _ in range(count):
         dt = rng.choice(lib.DTYPES)
         ulo, uhi = numgen.u_range(dt) if dt != "bool" else (0, 1)
-        kind = rng.choice(["uniform", "alternate", "dominant80", "dominant90", "tiny-clusters", "distinct-pow2", "regular-runs", "regular-runs"])
+        kind = rng.choice(["uniform", "alternate", "dominant80", "dominant90", "tiny-clusters", "distinct-pow2", "regular-runs", "regular-runs", "heavy-wide-runlen"])
         n = rng.randint(50, max_n)
         if kind == "uniform":
             us = [rng.randint(ulo, uhi) for _ in range(n)]
@@ -55,6 +55,18 @@ def adversarial(rng, count, max_n):
                     us += [dom] * r
                 us.append(rng.choice(oth))
             us = us[:n]
+        elif kind == "heavy-wide-runlen":
+            # one value holding ~97% near the top of the type, a few far below it (incl. the minimum), more just
+            # above it: with two ranges the run-length range is [min .. heavy] and every repetition pays a full offset
+            n = rng.randint(1001, max(1100, max_n))
+            span = uhi - ulo
+            heavy = rng.randint(ulo + span // 2, max(ulo + span // 2, uhi - min(2001, span // 4)))
+            us = [heavy] * n
+            for i in rng.sample(range(n), max(2, n // 100)):
+                us[i] = rng.randint(ulo, heavy)
+            us[rng.randrange(n)] = ulo
+            for i in rng.sample(range(n), max(3, n // 50)):
+                us[i] = min(uhi, heavy + rng.randint(1, 2000))
         elif kind == "tiny-clusters":
             n = max(n, 1500)
             cs = [rng.randint(ulo, uhi) for _ in range(rng.randint(500, 3000))]
@@ -65,6 +77,9 @@ def adversarial(rng, count, max_n):
             us = rng.sample(range(ulo, min(uhi, ulo + 10 ** 9) + 1), min(n, min(uhi, ulo + 10 ** 9) - ulo + 1)) if dt != "bool" else [rng.randint(0, 1) for _ in range(n)]
         xs = [numgen.of_u(dt, u) for u in us]
         level = rng.choice([10, 11, 12, 8, rng.randint(0, 12)]) if kind == "tiny-clusters" else rng.randint(0, 12)
+        if kind == "heavy-wide-runlen":
+            cases.append(dict(dt=dt, level=rng.choice([1, 1, 1, 2, 3, 4]), order=0, gcds=rng.randint(0, 1), chunks=[xs], shape="adv-" + kind))
+            continue
         cases.append(dict(dt=dt, level=level, order=rng.choice([0, 0, 0, 1, 2, 7]), gcds=rng.randint(0, 1),
                           chunks=split_chunks(xs, rng.choice([1, 1, 2, 3]), rng), shape="adv-" + kind))
     return cases
@@ -95,7 +110,7 @@ def run(res):
     thorough = res.tier == "thorough"
     from props.theorems import THEOREMS
     prove_obligations(res, THEOREMS.get("C14", []))
-    cases = corpus_cases() + c01_cases(rng, 20000 if thorough else 1500, max_n=400) + adversarial(rng, 4000 if thorough else 400, 6000 if thorough else 3000)
+    cases = corpus_cases() + c01_cases(rng, 20000 if thorough else 1500, max_n=400) + rl_range_cases(rng, 60 if thorough else 10) + adversarial(rng, 4000 if thorough else 400, 6000 if thorough else 3000)
     out = pl.run_pipeline(res, cases, want_spec=False, want_model_reader=False)
     obad, kbad = [], []
     worst = 0.0
